@@ -220,12 +220,19 @@ def seed_simple_fonts():
                           ("bfrange_arr", [(0x30, 0x31, ["0", "1"])])])
     hdr = type1_header([(65, "A"), (66, "B")])
     ttf = truetype_with_cmap({0x41: 3, 0x42: 4})
+    t1_rest = type1_header([(66, "B")]).split(b"\n", 1)[1]
+    t1_first = b"%!PS-AdobeFont-1.0: VerifT1 001.000\ndup "
+    t1c = Content([t1_first, ("tokens", {"0": 65, "1": N("A")}, b" put\n"), t1_rest, b"\x00" * 16])
+    t1 = t1c.render()[:-16]
+    cm_full = tounicode_cmap([], codelen=1)
+    cm_head, cm_tail = cm_full.split(b"endcmap")[0], b"endcmap" + cm_full.split(b"endcmap")[1]
     o = basic({
         4: {"Type": N("Font"), "Subtype": N("Type1"), "BaseFont": N("VerifFont"), "FirstChar": 65, "LastChar": 68,
             "Widths": [600, Ref(14), 600.5, 600], "FontDescriptor": Ref(6), "ToUnicode": Ref(7),
             "Encoding": {"Type": N("Encoding"), "BaseEncoding": N("WinAnsiEncoding"),
                          "Differences": [65, N("A"), N("Euro"), 97, N("a"), N("bullet")]}},
-        5: Stream({}, text("AB ab") + text("AB", y=650, font="F2") + text("ab", y=600, font="F3")),
+        5: Stream({}, text("AB ab") + text("AB", y=650, font="F2") + text("ab", y=600, font="F3")
+                  + text("ABCDEFG", y=550, font="F4")),
         6: {"Type": N("FontDescriptor"), "FontName": N("VerifFont"), "Flags": 32, "FontBBox": [0, -200, 1000, 800],
             "ItalicAngle": 0, "Ascent": 800, "Descent": -200, "CapHeight": 700, "StemV": 80, "MissingWidth": 500,
             "Leading": 0, "FontFile": Ref(8)},
@@ -242,8 +249,23 @@ def seed_simple_fonts():
              "Widths": [1000, 1000], "Resources": {}},
         13: Stream({}, b"1000 0 0 0 1000 1000 d1 0 0 1000 1000 re f"),
         14: 610,
-    }, res={"Font": {"F1": Ref(4), "F2": Ref(9), "F3": Ref(12)}})
-    return SeedDoc("simple_fonts", [Rev(o)], expect=["ab", "AB"],
+        # a Type 1 font without /Encoding: its built-in encoding is read from the clear-text header of the program, whose
+        # first statement is an encoding entry (the operands of that `put` are token sites)
+        15: {"Type": N("Font"), "Subtype": N("Type1"), "BaseFont": N("VerifT1"), "FirstChar": 65, "LastChar": 66,
+             "Widths": [500, 500], "FontDescriptor": Ref(16), "ToUnicode": Ref(18)},
+        16: {"Type": N("FontDescriptor"), "FontName": N("VerifT1"), "Flags": 32, "FontBBox": [0, -200, 1000, 800],
+             "ItalicAngle": 0, "Ascent": 800, "Descent": -200, "StemV": 80, "FontFile": Ref(17)},
+        17: Stream({"Length1": len(t1), "Length2": 16, "Length3": 0}, t1c),
+        # ToUnicode CMap whose entries are token sites (one bfchar, one incrementing bfrange, one bfrange with an array
+        # of hexadecimal strings, one with an array of numbers - a form pdfminer accepts)
+        18: Stream({}, Content([cm_head, b"1 beginbfchar\n", ("tokens", {"0": HexStr(b"\x43"), "1": HexStr(b"\x00\x43")}, b"\nendbfchar\n"),
+                                b"3 beginbfrange\n",
+                                ("tokens", {"0": HexStr(b"\x41"), "1": HexStr(b"\x42"), "2": HexStr(b"\x00\x41")}, b"\n"),
+                                ("tokens", {"0": HexStr(b"\x44"), "1": HexStr(b"\x45"), "2": [HexStr(b"\x00\x44"), HexStr(b"\x00\x45")]}, b"\n"),
+                                ("tokens", {"0": HexStr(b"\x46"), "1": HexStr(b"\x47"), "2": [70, 71]}, b"\nendbfrange\n"),
+                                cm_tail])),
+    }, res={"Font": {"F1": Ref(4), "F2": Ref(9), "F3": Ref(12), "F4": Ref(15)}})
+    return SeedDoc("simple_fonts", [Rev(o)], expect=["ab", "AB", "ABCDEFG"],
                    features=["Type1 Differences", "ToUnicode", "Widths", "FontDescriptor", "FontFile", "TrueType FontFile2",
                              "Type3"])
 
